@@ -544,6 +544,15 @@ fn generate_single(r: &mut Rng, tier: Tier) -> C15 {
     let family = if big { *r.pick(BYTEY_TYS) } else { *r.pick(IO_TYS) };
     let nframes = shape.nframes;
     let values: Vec<ValSpec> = (0..nframes).map(|i| ValSpec { ty: family, size: shape.size(r, i), seed: r.next_u64() }).collect();
+    let mut values = values;
+    if r.chance(1, 3) {
+        // byte-identical consecutive frames (a transport must not "recognise" a frame it has seen)
+        for i in 1..values.len() {
+            if r.chance(1, 4) {
+                values[i] = values[i - 1].clone();
+            }
+        }
+    }
     let largest = values.iter().filter_map(reference_encoding).map(|p| p.len() + 4).max().unwrap_or(0);
     let len = stream_len(&values);
     // swarm: which fault kinds are enabled in this run
